@@ -92,7 +92,10 @@ TypeName(ty) == CASE ty = "date" -> "PlainDate" [] ty = "time" -> "PlainTime" []
 Base == IF last.op = "with" THEN last.recv ELSE IF last.ty = "yearmonth" THEN YM(0, 0, 1) ELSE DT(Date(0, 0, 0), MidnightRec)
 CaseCls == Cls(last.ty, last.op, Base, last.p, last.ovf)
 CaseOf ==
-  IF last.op = "with" /\ "era" \in DOMAIN last THEN
+  IF last.op = "with" /\ "half" \in DOMAIN last THEN
+    [op |-> "PlainDate.with", cls |-> "half-era/" \o last.half \o (IF "year" \in DOMAIN last.p THEN "+year" ELSE "") \o "/" \o last.ovf,
+     args |-> [recv |-> last.recv @@ [cal |-> "gregory"], p |-> last.p, half |-> last.half, ovf |-> last.ovf], out |-> last.out]
+  ELSE IF last.op = "with" /\ "era" \in DOMAIN last THEN
     [op |-> "PlainDate.with", cls |-> CaseCls \o "/era-" \o last.era[1],
      args |-> [recv |-> last.recv @@ [cal |-> "gregory"], p |-> [k \in (DOMAIN last.p \ {"year"}) |-> last.p[k]], era |-> last.era[1], eraYear |-> last.era[2], ovf |-> last.ovf], out |-> last.out]
   ELSE IF last.op = "with" THEN
